@@ -34,7 +34,7 @@ import os
 import numpy
 import sympy as sp
 
-from ..absint import ExtRef, LambdaRef, FuncRef, Obj, Raised, Term, ExcVal, UnknownBool
+from ..absint import opt_args, ExtRef, LambdaRef, FuncRef, Obj, Raised, Term, ExcVal, UnknownBool
 from ..core import AnalysisError, Ctx, Finding
 from ..domain import make_interp
 from ..ndsym import eq_arrays, from_np, install_nd, sym_array, to_np
@@ -255,7 +255,7 @@ def r_fit(ctx: Ctx, model):
             cap["nvar"] = nvar
             X = sym_array("x", nvar if nvar else NW, real=True)
             cap["X"] = X
-            cap["objective"] = I.call_value(a[0], [X], {}, n)
+            cap["objective"] = I.call_value(a[0], [X] + opt_args(k), {}, n)
             ok = I.choose(2, "result.success") == 0
             RX = sym_array("r", nvar if nvar else NW, nonnegative=True)
             cap["RX"] = RX
